@@ -5,25 +5,40 @@ from .builder import Canon
 from . import frame as FR
 
 
-def find_loop(fn, P, cn, range_str):
-    """(header_block, loop_blocks, latch_blocks) of `for _ in <range_str>`"""
+def find_loop(fn, P, cn, range_str, containing_call=None):
+    """(header_block, loop_blocks, latch_blocks) of `for _ in <range_str>`; optionally the loop whose body calls
+    a function with the given last name (disambiguates loops over equal ranges)"""
     nx = [b for b in FR.calls_of(fn, 'next') if range_str in FR.arg_canon(fn, P, cn, b, 0)]
+    nl = dict(fn.natural_loops())
+    def body_of(b):
+        # the iterator's next() call sits in the loop header block (or the block leading to its switch)
+        if b in nl:
+            return nl[b]
+        cands = [(h, body) for h, body in nl.items() if b in body]
+        return min(cands, key=lambda x: len(x[1]))[1] if cands else None
+    if containing_call and len(nx) > 1:
+        keep = []
+        for b in nx:
+            body = body_of(b)
+            if body and any(fn.blocks[x]['term']['k'] == 'call' and fn.blocks[x]['term']['fn']['k'] == 'def' and last(fn.blocks[x]['term']['fn']['name']) == containing_call for x in body):
+                keep.append(b)
+        nx = keep
     if len(nx) != 1:
         return None
-    comps = [c for c in fn.sccs() if nx[0] in c]
-    if not comps:
+    loop = body_of(nx[0])
+    if loop is None:
         return None
-    loop = max(comps, key=len)
-    latches = [p for p in fn.pred(nx[0]) if p in loop]
-    return nx[0], loop, latches
+    hdr = nx[0] if nx[0] in nl else min(((h, body) for h, body in nl.items() if nx[0] in body), key=lambda x: len(x[1]))[0]
+    latches = [p for p in fn.pred(hdr) if p in loop]
+    return hdr, loop, latches
 
 
-def transfer(fn, F, range_str, names):
+def transfer(fn, F, range_str, names, containing_call=None, innermost=True):
     """expressions of the named locals at the end of one iteration of the loop over range_str, in terms of the
     values at the start of the iteration (`var:x@in`)"""
     P = Prov(fn, F, cut_loops=True)
     cn = Canon(fn, P)
-    fl = find_loop(fn, P, cn, range_str)
+    fl = find_loop(fn, P, cn, range_str, containing_call)
     if fl is None or len(fl[2]) != 1:
         return None
     hdr, loop, latches = fl
